@@ -246,6 +246,65 @@ def qc_points_case():
     return bad
 
 
+def lloff_case():
+    """lifting-line offset given in each documented form (real code, concrete): an array that is constant equals the float, a linear array
+    equals the callable, and with the Kuchemann locus on a swept two-sided wing the left half is the mirror image of the right half"""
+    import machupX as MX
+    bad = []
+
+    def pcs(ll, side="both", sweep=15.0):
+        d = airplane(False, {}, with_children=False, N=4)
+        w = d["wings"]["main"]
+        w.pop("connect_to", None)
+        w["side"], w["sweep"], w["ll_offset"] = side, sweep, ll
+        sc = MX.Scene({"units": "English", "scene": {"atmosphere": {"rho": 0.0023769}}})
+        sc.add_aircraft("p", d, state={"velocity": [100.0, 0.0, 5.0]})
+        ap = sc._airplanes["p"]
+        return np.array(ap.PC, dtype=float), np.array(ap.P0, dtype=float), np.array(ap.P1, dtype=float), sc
+    try:
+        a, b = pcs(0.05), pcs([[0.0, 0.05], [1.0, 0.05]])
+        if not all(np.allclose(x, y, rtol=0, atol=1e-12) for x, y in zip(a[:3], b[:3])):
+            bad.append("ll_offset constant array: control points / nodes differ from the float form")
+    except Exception as e:
+        bad.append("ll_offset array raises: %s: %s" % (type(e).__name__, e))
+    try:
+        a, b = pcs(lambda s: 0.1 * s), pcs([[0.0, 0.0], [1.0, 0.1]])
+        if not all(np.allclose(x, y, rtol=0, atol=1e-12) for x, y in zip(a[:3], b[:3])):
+            bad.append("ll_offset linear array: control points / nodes differ from the callable form")
+    except Exception as e:
+        bad.append("ll_offset linear array raises: %s: %s" % (type(e).__name__, e))
+    for sweep in (20.0, -15.0):
+        try:
+            PC, P0, P1, sc = pcs("kuchemann", sweep=sweep)
+            n = PC.shape[0] // 2
+            M = np.array([1.0, -1.0, 1.0])
+            # rows: one half then the other; a left half is stored tip-to-root
+            left, right = (slice(0, n), slice(n, 2 * n)) if PC[0, 1] < 0 else (slice(n, 2 * n), slice(0, n))
+            if not np.allclose(PC[left][::-1] * M, PC[right], rtol=0, atol=1e-10):
+                bad.append("ll_offset kuchemann sweep %g: left control points are not the mirror image of the right ones (max dev %.3g)" % (sweep, np.abs(PC[left][::-1] * M - PC[right]).max()))
+            if not (np.allclose(P1[left][::-1] * M, P0[right], rtol=0, atol=1e-10) and np.allclose(P0[left][::-1] * M, P1[right], rtol=0, atol=1e-10)):
+                bad.append("ll_offset kuchemann sweep %g: left nodes are not the mirror image of the right ones" % sweep)
+            fm = sc.solve_forces()["p"]["total"]
+            if not all(np.isfinite(v) for v in fm.values()):
+                bad.append("ll_offset kuchemann: loads not finite")
+        except Exception as e:
+            bad.append("ll_offset kuchemann raises: %s: %s" % (type(e).__name__, e))
+    return bad
+
+
+def harness_lloff(ck):
+    with AN.real_classes():
+        bad = lloff_case()
+    ck.add([Obligation("lifting-line offset forms (concrete, real code): array == float, array == callable, Kuchemann left/right mirror: %s" % (bad[:2] if bad else "ok"), [], z3.BoolVal(not bad),
+                       meta={"finding": lambda ob: Finding("lloff", {}, ob.label)})])
+
+
+def replay_lloff(inp):
+    with AN.real_classes():
+        bad = lloff_case()
+    return {"reproduced": bool(bad), "key": "ll_offset: " + (bad[0].split(":")[0] if bad else ""), "observed": bad[:4], "what": "; ".join(bad[:2])}
+
+
 def harness_qc(ck):
     with AN.real_classes():
         bad = qc_points_case()
@@ -308,7 +367,7 @@ def replay_geom(inp):
     return {"reproduced": bool(bad), "key": "geometry: " + (bad[0].split(" ")[0] + " " + bad[0].split(" ")[1] if bad else ""), "observed": bad[:5], "what": "; ".join(bad[:2])}
 
 
-REPLAYS = {"geom": replay_geom, "qc": replay_qc}
+REPLAYS = {"geom": replay_geom, "qc": replay_qc, "lloff": replay_lloff}
 
 
 def main(tier, seed, only=None):
@@ -334,6 +393,8 @@ def main(tier, seed, only=None):
         tasks.append(("%s %s" % (grid, ch), lambda c, grid=grid, ch=ch: harness_geom(c, grid, ch)))
     if not only or "qc" in only:
         tasks.append(("qc points", harness_qc))
+    if not only or "lloff" in only:
+        tasks.append(("ll_offset forms", harness_lloff))
     run_parallel(ck, tasks)
     ck.bound(family="one 'both' wing with symbolic semispan, sweep, dihedral, twist, linear chord, ll_offset, dx/dy/dz/y_offset; optional children at tip (continuation) and root; N = 2 per side; grids: cosine, linear (explicit list in thorough)")
     ck.rung("rung 4 (parametric geometry), bounded")
